@@ -12,4 +12,6 @@ trap 'rm -rf "$tmp"' EXIT
 bin/verif-instrument /repo "$tmp/ov" 2>/dev/null
 cp -r mc "$tmp/mc"
 (cd "$tmp/mc" && go1.26.8 test -c -tags verif -overlay "$tmp/ov/overlay.json" -vet=off -o "$tmp/mc.test" .)
+# and the same with the race detector, for the free-running pass
+(cd "$tmp/mc" && CGO_ENABLED=1 go1.26.8 test -c -race -tags verif -overlay "$tmp/ov/overlay.json" -vet=off -o "$tmp/mc.race.test" .)
 echo setup ok
